@@ -211,6 +211,14 @@ def flagCandidate (inst : Option Int) (thr m : Int) : Bool :=
    | some i => decide (m ≥ i)
    | none => false) || (decide (m ≠ 0) && decide (m ≥ thr))
 
+/-- `SiteLevelMethod.update_stationary` for a site not yet in processing, followed by
+`update_candidates_for_flags` of the same `update` call (delay 0, the site survives the proportion
+filter): the site always becomes a candidate with a *fresh* `StationaryFollowUpSurveyPlanner`, whose
+`rate_at_site` is 0 whatever was measured (the rolling means are only computed from the second record
+on); it is queued for follow-up iff `should_follow_up(small_window_threshold)`, i.e. `0 >= threshold`
+(`should_follow_up_long` is false for a long-window rate of 0).  The measured rate `m` is not consulted. -/
+def flagStationaryFresh (smallThr : Int) (_m : Int) : Bool := decide ((0 : Int) ≥ smallThr)
+
 /-- a survey as the day loop of a program performs it -/
 structure SurveyIn where
   cfg : Cfg
@@ -230,5 +238,32 @@ def tagEvents (sv : SurveyIn) (s g c : Nat) : List Emission.TagEv :=
 /-- all tag events of one day for the emissions of component `(s, g, c)` -/
 def dayEvents (svs : List SurveyIn) (s g c : Nat) : List Emission.TagEv :=
   svs.flatMap (fun sv => tagEvents sv s g c)
+
+/-- all events of one day reaching emission `id` of component `(s, g, c)`: the tag requests of the
+component-scale surveys and the detection-only records a site-scale sensor writes on the emissions it
+sees (`DefaultSiteLevelSensor.detect_emissions` → `update_detection_records`) -/
+def surveyEventsE (sv : SurveyIn) (s g c id : Nat) : List Emission.Ev :=
+  (tagEvents sv s g c).map Emission.Ev.tag ++
+  (if sv.site = s ∧ (surveyOf sv).recorded.contains id then [Emission.Ev.detect sv.m] else [])
+
+def dayEventsE (svs : List SurveyIn) (s g c id : Nat) : List Emission.Ev :=
+  svs.flatMap (fun sv => surveyEventsE sv s g c id)
+
+/-! ### the coverage store over the whole life of an emission
+
+Between surveys the life cycle (`activate`, `tag_leak` / `record_emission`, `update`, the intermittency
+toggle, repair / expiry) changes whether the emission is in an active list and whether it emits; the
+only writer of `_tech_spat_covs` in the code base is `check_spatial_cov` (checked on every run by an
+AST scan of /repo, see harness/props/c05.py `coverage_writers_table`). -/
+inductive LifeStep
+  | survey (m s : Nat) (r : Rolls)            -- a survey of site `s` by method `m` looks at the emission
+  | world (active emitting : Bool)            -- any life-cycle change between surveys
+  deriving DecidableEq, Repr, Inhabited
+
+def lifeStep (e : Emis) : LifeStep → Emis
+  | .survey m s r => (detectOne m s (e, r)).e
+  | .world a em => { e with active := a, emitting := em }
+
+def life (e : Emis) (steps : List LifeStep) : Emis := steps.foldl lifeStep e
 
 end LdarModel.Sensor
